@@ -31,7 +31,8 @@ RULE = (
     "policy results with at most one left over; S2 learn exactly once per completed chosen batch, in order, with that action "
     "and the reference relative-improvement reward of that batch, never for an unexecuted action; S3 the sampler that ran is "
     "samplers[action]; S4 at end_session both queues empty and the agent thread finished; S5 no deadlock; S6 the projection "
-    "(samplers run, learn calls, final state of the agent incl. its generator) is identical across all schedules of a case. Non-trivial = a schedule with >= 1 preemption in "
+    "(samplers run, learn calls, final state of the agent incl. its generator) is identical across all schedules of a case; S7 the "
+    "epsilon-greedy agent (constant step or sample-average) ends with exactly the estimates and visit counts its learn() calls produce. Non-trivial = a schedule with >= 1 preemption in "
     "a run with >= 2 sessions; distinct by (case, choice list)."
 )
 ASSUMPTIONS = [
@@ -39,7 +40,7 @@ ASSUMPTIONS = [
     "the calibration side is driven through the scheduler API exactly as Calibrator.calibrate() does (session(), get_next_sampler(), update()) in two thirds of the cases and by a real Calibrator.calibrate() (scripted losses) in one third",
     "non-negative losses; once the best loss is exactly 0.0 no later batch can improve it, so the reward rule never divides by zero",
 ]
-REQUIRED_COUNTERS = {"cases_with_a_failing_batch": 3, "cases_via_real_calibrator": 8, "schedules": 2000, "preempted_multi_session": 500, "cases": 30, "free_runs": 60, "free_line_events": 5000}
+REQUIRED_COUNTERS = {"s7_agent_state_vs_learn_log": 500, "cases_with_a_failing_batch": 3, "cases_via_real_calibrator": 8, "schedules": 2000, "preempted_multi_session": 500, "cases": 30, "free_runs": 60, "free_line_events": 5000}
 SHARDS = {"quick": 16, "thorough": 16}
 SHARD_WATCHDOG = {"quick": 1500, "thorough": 10800}
 
@@ -110,7 +111,8 @@ def make_agent(kind, n_actions, seed, rec):
                 rec("learn", who(), int(a), float(r))
                 return super().learn(s, a, r, ns)
 
-        return Logged(n_actions, alpha=0.5, eps=0.3, initial_values=0.0, random_state=seed)
+        # every second case in the sample-average setting (step 1/visits: a visit that was counted but not learnt from shows in Q)
+        return Logged(n_actions, alpha=(-1 if seed % 2 else 0.5), eps=0.3, initial_values=0.0, random_state=seed)
 
     class Scripted(Agent):
         def __init__(self):
@@ -377,6 +379,18 @@ def run_controlled(desc, losses, prefix):
         res["agent_state"] = f"unavailable: {e!r}"
     res["n"] = len(sched.samplers)
     res["halton"] = halton_index
+    ag = sched._agent
+    if desc["agent"] == "egreedy" and not res["deadlock"] and res["error"] is None:
+        # S7: estimates and visit counts are a function of the learn() calls alone (an action that was chosen but never executed leaves no trace)
+        nq, nc = [0.0] * ag.n_actions, [0] * ag.n_actions
+        for e in ctl.log:
+            if e[0] == "learn":
+                a_, r_ = int(e[2]), float(e[3])
+                nc[a_] += 1
+                nq[a_] += (1.0 / nc[a_] if ag.alpha == -1 else ag.alpha) * (r_ - nq[a_])
+        gq, gc = [float(x) for x in ag.Q], [int(x) for x in ag.actions_count]
+        if gc != nc or any(abs(x - y) > 1e-12 for x, y in zip(gq, nq)):
+            res["s7"] = f"S7 the agent ends with visit counts {gc} and estimates {[round(x, 9) for x in gq]}; its learn() calls alone give {nc} and {[round(x, 9) for x in nq]}"
     res["preemptions"] = sum(1 for (n_en, idx, cur_en) in ctl.trace if idx != 0 and cur_en)
     return ctl.trace, res
 
@@ -408,6 +422,10 @@ def case_controlled(desc, ctx, out):
             bad.append(f"the calibration thread raised {res['error']}")
         b2, proj = judge(desc, res["log"], losses, res["n"], res["halton"])
         bad += b2
+        if res.get("s7"):
+            bad.append(res["s7"])
+        if desc["agent"] == "egreedy":
+            c["s7_agent_state_vs_learn_log"] = c.get("s7_agent_state_vs_learn_log", 0) + 1
         proj = (proj, res.get("agent_state"))
         projections.setdefault(proj, choice)
         if res["preemptions"] >= 1 and len(desc["shape"]) >= 2:
